@@ -2459,6 +2459,24 @@ pub proof fn lemma_rng_at(s: Seq<Token>, a: int, b: int, j: int)
     requires a <= j < b, 0 <= j < s.len()
     ensures all_blank(s, a, b) ==> empty_kind(s[j].kind), no_newline(s, a, b) ==> s[j].kind != TokenKind::Newline
 { reveal(all_blank); reveal(no_newline); }
+/// C14/C17: position a is the first token of a line
+pub open spec fn at_line_start(s: Seq<Token>, a: int) -> bool { a == 0 || s[a - 1].kind == TokenKind::Newline }
+/// [a, b) is the rest of the line that a lies in: no newline token inside, and it ends at a newline token or at the end of input
+pub open spec fn is_line(s: Seq<Token>, a: int, b: int) -> bool { 0 <= a <= b <= s.len() && no_newline(s, a, b) && (b == s.len() || s[b].kind == TokenKind::Newline) }
+/// no `>>` at a line start before position k
+pub open spec fn no_meta_before(s: Seq<Token>, k: int) -> bool { forall|j: int| 0 <= j < k ==> !((#[trigger] s[j]).kind == TokenKind::MetadataStart && at_line_start(s, j)) }
+/// C14: [k, e) is the first metadata entry line of the stream: `>>` at a line start, up to (not including) the end of its line
+pub open spec fn meta_entry_at(s: Seq<Token>, k: int, e: int) -> bool {
+    0 <= k < e <= s.len() && s[k].kind == TokenKind::MetadataStart && at_line_start(s, k) && is_line(s, k, e) && no_meta_before(s, k)
+}
+/// the end of a line is unique
+pub proof fn lemma_line_unique(s: Seq<Token>, a: int, b1: int, b2: int)
+    requires is_line(s, a, b1), is_line(s, a, b2)
+    ensures b1 == b2
+{
+    if b1 < b2 { lemma_rng_at(s, a, b2, b1); }
+    if b2 < b1 { lemma_rng_at(s, a, b1, b2); }
+}
 pub proof fn lemma_rng_empty(s: Seq<Token>, a: int, b: int)
     requires b <= a
     ensures all_blank(s, a, b), no_newline(s, a, b)
@@ -2722,7 +2740,7 @@ after `bp.finish();`:
 @*/
 
 /*@ fn src/parser/mod.rs PullParser::next_metadata_block
-tags C03 C05
+tags C03 C05 C14
 ret r
 desugar_for 1
 attr #[verifier::spinoff_prover]
@@ -2734,6 +2752,9 @@ spec:
             // [C05] metadata-only mode: events are only ever added to the queue
             r.is_some() ==> ev_grown(final(self).q(), old(self).q()),
             r.is_none() ==> final(self).q() == old(self).q(),
+            // [C14] the block handed to metadata_entry is exactly the first `>>` line of what was left: from the `>>` at a line
+            //       start up to, not including, the end of its line — the same slice the full parser makes a block of
+            r.is_some() ==> exists|k: int, e: int| #[trigger] meta_entry_at(old(self).rem(), k, e) && final(self).blk() == old(self).rem().subrange(k, e),     // [C14]
 enter:
         hide(toks_ok);
         broadcast use BlockParser::lemma_resolved;
@@ -2743,16 +2764,19 @@ enter:
 loop 0:
             invariant self.wf(), self.ctx_same(old(self)), self.q() == old(self).q(), r0 == old(self).rem(), toks_ok(r0),
                 0 <= k <= r0.len(), self.rem() == r0.skip(k), self.blk().len() == 0,
+                last == (if k == 0 { TokenKind::Newline } else { r0[k - 1].kind }), no_meta_before(r0, k),     // [C14]
             ensures self.rem().len() > 0, self.rem()[0].kind == TokenKind::MetadataStart,
+                0 <= k < r0.len(), self.rem() == r0.skip(k), r0[k].kind == TokenKind::MetadataStart, at_line_start(r0, k), no_meta_before(r0, k),     // [C14]
             decreases self.fuel()
 after `self.tokens.next();`:
             proof { assert(r0.skip(k).drop_first() =~= r0.skip(k + 1)); k = k + 1; }
 before `for tok in self.tokens.by_ref() {`:
         let ghost mut n: int = 0;     // tokens of the entry
-        proof { assert(r0.subrange(k, k) =~= Seq::<Token>::empty()); }
+        proof { assert(r0.subrange(k, k) =~= Seq::<Token>::empty()); lemma_rng_empty(r0, k, k); }
 loop 1:
             invariant_except_break
                 self.rem() == r0.skip(k + n), n == 0 ==> self.rem().len() > 0 && self.rem()[0].kind == TokenKind::MetadataStart,
+                no_newline(r0, k, k + n),     // [C14]
                 vstd::std_specs::iter::IteratorSpec::decrease(&self.tokens).is_some(),
             invariant
                 vstd::std_specs::iter::IteratorSpec::obeys_prophetic_iter_laws(&self.tokens), self.input.spec_bytes() == the_input(),
@@ -2760,6 +2784,7 @@ loop 1:
                 0 <= n, 0 <= k, k + n <= r0.len(),
                 self.blk() == r0.subrange(k, k + n),      // [C03] [C05] the entry's tokens, `>>` included, are stored (the block parser needs a non-empty block)
             ensures self.wf(), exists|m: int| 0 <= m <= r0.len() && self.rem() == #[trigger] r0.skip(m),
+                is_line(r0, k, k + n),     // [C14] the entry ends at the end of its line
                 n > 0,     // [C03] the entry holds at least its `>>` token: the block parser is never created over an empty block
             decreases self.fuel()
 loopbody 1:
@@ -2768,6 +2793,7 @@ loopbody 1:
                 assert(r0.skip(k + j).len() > 0);
                 assert(r0.skip(k + j).drop_first() =~= r0.skip(k + j + 1));
                 assert(tok == r0[k + j]);
+                lemma_rng_join(r0, k, k + j, k + j + 1); lemma_rng_one(r0, k + j);
             }
 after `self.block.push(tok);`:
             proof { n = j + 1; assert(r0.subrange(k, k + j + 1) =~= r0.subrange(k, k + j).push(r0[k + j])); }
@@ -2786,7 +2812,7 @@ after `bp.event(ev);`:
 after `bp.finish(); // only finish if a metadata is parsed, as other blocks are not consumed`:
             proof { assert(ev_grown(self.q(), old(self).q())); }
 before `Some(())`:
-        proof { assert(bp0.evs() == old(self).q()); assert(bp0.fin() == self.q()); }
+        proof { assert(bp0.evs() == old(self).q()); assert(bp0.fin() == self.q()); assert(meta_entry_at(r0, k, k + n)); }
 @*/
 }
 } // verus!
